@@ -460,6 +460,22 @@ func TestVerifC05(t *testing.T) {
 		}
 		t.Fatalf("scenario %q not found", rp.Scenario)
 	}
+	if vs.FreeMode() {
+		// free-running pass for the race detector (validates the data-race-freedom assumption of the scheduler)
+		r := vrep.New("C05", "race-pass")
+		dl := vrep.Deadline()
+		n := 0
+		for time.Now().Before(dl) {
+			for _, sc := range scs {
+				runs, _ := vs.FreeRun(t, c05Scenario(sc), 3, dl)
+				n += runs
+			}
+		}
+		r.Executions = int64(n)
+		r.Note("free-running executions: %d", n)
+		r.Flush()
+		return
+	}
 	si, sn := vrep.Shard()
 	r := vrep.New("C05", "swarm-dial")
 	r.Bounds["scenarios"] = len(scs)
